@@ -28,13 +28,19 @@ TOL_SAME = 1e-13   # two ways of writing the same model (tuple syntax / nest obj
 SHIFTS = (3, 4)
 
 MODEL_INVARIANTS = ['ProbUnit', 'SumOne', 'ZeroUnavail', 'PositiveAvail', 'ShiftInvariant', 'MevTheorem', 'Decomposition',
-                    'Euler', 'DerivativeExact', 'ReduceToSimpler', 'ScaleOne', 'OrdSorted']
+                    'Euler', 'DerivativeExact', 'ReduceToSimpler', 'ScaleOne', 'OrdSorted', 'NamesIrrelevant', 'Memoryless']
 
 L2, L3, L4 = (5, 2), (7, 1, 4), (12, 3, 7, 5)
 L2B, L3B, L4B = (2, 9), (1, 4, 8), (3, 11, 6, 20)
 MUS = ('1', '2', '3/2')
 ALL_PAIRS = [(x, y) for x in MUS for y in MUS]
+QUICK_PAIRS = [('1', '1'), ('2', '1'), ('1', '3/2'), ('3/2', '2'), ('2', '2')]
 ROWS = [('0', '0'), ('1', '0'), ('0', '1'), ('1/2', '1/2')]
+# Ways of naming the two nest objects ('' = no name given: the library calls the nest 'nest_<position>').
+# The first one is the naming of the plain replay; 'clash': the default name of the second nest is the name given to the first.
+NAMINGS = {'distinct': ('n0', 'n1'), 'unnamed': ('', ''), 'same': ('N', 'N'), 'clash': ('nest_2', '')}
+BASE_NAMING = 'distinct'
+NAMING_OF = {v: k for k, v in NAMINGS.items()}
 
 
 def _full(j):
@@ -46,7 +52,7 @@ def runs(tier: str, kinds=None) -> list[dict]:
     q = tier == 'quick'
     base = dict(ShiftCs=SHIFTS, NlMuPairs=ALL_PAIRS, CnlMuPairs=ALL_PAIRS, TopMus=('1', '2'), AlphaRows=ROWS, GVals=('1/2', '1', '3'),
                 OrdLabelSeqs=[(2, 9), (1, 3, 8), (4, 1, 7, 2)], OrdRs=('1',), OrdT1s=('1',), OrdRatios=('1',),
-                PrbXs=('0',), PrbT1s=('0',), PrbDiffs=('0',), LabelSeqs=[L2], AVecs=[(1, 2)])
+                PrbXs=('0',), PrbT1s=('0',), PrbDiffs=('0',), LabelSeqs=[L2], AVecs=[(1, 2)], Steps=1, Namings=list(NAMINGS.values()))
     out = []
 
     def add(name, kinds_, workers, **kw):
@@ -70,13 +76,21 @@ def runs(tier: str, kinds=None) -> list[dict]:
         AVecs=[(1, 2), (3, 4), (1, 2, 2), (3, 4, 1), (1, 2, 2, 4)] if q else
         _full(2) + [(1, 2, 2), (3, 4, 1), (2, 3, 1), (4, 4, 3), (1, 1, 1), (2, 2, 1), (4, 1, 4), (3, 3, 4), (2, 4, 4), (1, 3, 2)]
         + [(1, 2, 2, 4), (3, 4, 2, 1), (2, 1, 3, 3), (4, 4, 4, 1), (1, 1, 1, 1), (2, 4, 4, 3), (4, 3, 1, 2), (2, 2, 1, 4)])
-    add('cnl', ['cnl'], 6, LabelSeqs=[L2, L3],
+    # quick: five of the nine pairs of nest parameters (each value with each other one, equal and different), so that the
+    # replays under the other namings of the nests and after modifications of the dictionaries fit into the same time
+    add('cnl', ['cnl'], 6, LabelSeqs=[L2, L3], CnlMuPairs=QUICK_PAIRS if q else ALL_PAIRS,
         AVecs=[(1, 2), (3, 4), (1, 2, 2), (3, 4, 1)] if q else
         _full(2) + [(1, 2, 2), (3, 4, 1), (2, 3, 1), (4, 4, 3), (1, 1, 1), (2, 2, 1), (4, 1, 4), (1, 3, 2)])
     add('cnl4', ['cnl'], 6, LabelSeqs=[L4],
-        CnlMuPairs=[('1', '1'), ('2', '1'), ('1', '2'), ('2', '3/2')] if q else ALL_PAIRS,
+        CnlMuPairs=[('1', '2'), ('2', '3/2')] if q else ALL_PAIRS,
         TopMus=('1',) if q else ('1', '2'),
-        AVecs=[(1, 2, 2, 4)] if q else [(1, 2, 2, 4), (3, 4, 2, 1)])
+        AVecs=[(1, 2, 2, 4), (3, 4, 2, 1)])
+    # two-step behaviours (Steps = 2): a second construction from the same, modified objects
+    add('session', ['nl', 'cnl', 'mev'], 4, Steps=2, LabelSeqs=[L3],
+        AVecs=[(1, 2, 2)] if q else [(1, 2, 2), (3, 4, 1)],
+        NlMuPairs=[('2', '3/2')] if q else [('2', '1'), ('2', '3/2')], CnlMuPairs=[('2', '3/2')] if q else [('2', '1'), ('1', '3/2'), ('3/2', '2')],
+        AlphaRows=[('0', '0'), ('1', '0'), ('1/2', '1/2')], TopMus=('1',) if q else ('1', '2'),
+        GVals=('1/2', '3'))
     if kinds is not None:
         out = [r for r in out if set(r['kinds']) & set(kinds)]
     return out
@@ -96,7 +110,7 @@ def _set(xs, f=str) -> str:
 
 
 Q_SETS = ('TopMus', 'GVals', 'OrdRs', 'OrdT1s', 'OrdRatios', 'PrbXs', 'PrbT1s', 'PrbDiffs')
-DEFINED = ('Kinds', 'LabelSeqs', 'AVecs', 'NlMuPairs', 'CnlMuPairs', 'AlphaRows', 'ShiftCs', 'OrdLabelSeqs') + Q_SETS
+DEFINED = ('Kinds', 'LabelSeqs', 'AVecs', 'NlMuPairs', 'CnlMuPairs', 'AlphaRows', 'ShiftCs', 'OrdLabelSeqs', 'Namings') + Q_SETS
 
 
 def module(run: dict, name: str = 'MCChoice') -> str:
@@ -108,14 +122,15 @@ def module(run: dict, name: str = 'MCChoice') -> str:
     for k in ('NlMuPairs', 'CnlMuPairs', 'AlphaRows'):
         lines.append(f'G_{k} == ' + _set(c[k], lambda p: _seq(p, _q)))
     lines.append('G_ShiftCs == ' + _set(c['ShiftCs']))
+    lines.append('G_Namings == ' + _set(c.get('Namings', list(NAMINGS.values())), lambda nm: _seq(nm, lambda x: f'"{x}"')))
     for k in Q_SETS:
         lines.append(f'G_{k} == ' + _set(c[k], _q))
     lines.append('====')
     return '\n'.join(lines) + '\n'
 
 
-def cfg(invariants, mutation: str = 'none', emit: bool = True) -> str:
-    out = ['SPECIFICATION Spec', 'CONSTANTS', f' Mutation = "{mutation}"']
+def cfg(invariants, mutation: str = 'none', emit: bool = True, steps: int = 1) -> str:
+    out = ['SPECIFICATION Spec', 'CONSTANTS', f' Mutation = "{mutation}"', f' Steps = {steps}']
     out += [f' {k} <- G_{k}' for k in DEFINED]
     out += [f'INVARIANT {i}' for i in invariants]
     if emit:
@@ -131,6 +146,15 @@ def expected_count(run: dict) -> int:
     n = 0
     navec = {j: sum(1 for a in c['AVecs'] if len(a) == j) for j in (2, 3, 4)}
     nobs = {j: navec[j] * (2 ** j - 1) for j in (2, 3, 4)}
+    if c.get('Steps', 1) == 2:
+        # every observation is followed by each other argument: one utility replaced (3 J), all utilities replaced by
+        # another vector of AVecs that differs in more than one entry, any other availability pattern (2^J - 2)
+        for j in (2, 3, 4):
+            per = 0
+            for a in (a for a in c['AVecs'] if len(a) == j):
+                far = sum(1 for b in c['AVecs'] if len(b) == j and sum(1 for x, y in zip(a, b) if x != y) > 1)
+                per += (2 ** j - 1) * (1 + 3 * j + far + 2 ** j - 2)
+            nobs[j] = per
     for kind in run['kinds']:
         if kind in ('ologit', 'oprobit'):
             xs, t1, d = (c['OrdRs'], c['OrdT1s'], c['OrdRatios']) if kind == 'ologit' else (c['PrbXs'], c['PrbT1s'], c['PrbDiffs'])
@@ -158,15 +182,15 @@ def expected_count(run: dict) -> int:
     return n
 
 
-def run_models(chk, tier: str, kinds=None, invariants=None) -> dict:
+def run_models(chk, tier: str, kinds=None, invariants=None, skip=()) -> dict:
     """Run TLC on every family of the tier (concurrently).  -> {run name: [records]}"""
-    todo = runs(tier, kinds)
+    todo = [r for r in runs(tier, kinds) if r['name'] not in skip]
     res: dict = {}
 
     def go(run):
         for attempt in range(3):   # a JVM killed from outside leaves neither a verdict nor an error: retry
-            r = tlc.run('MCChoice', cfg(invariants or MODEL_INVARIANTS), extra_modules={'MCChoice': module(run)},
-                        workers=run['workers'], timeout=2400, heap='3g')
+            r = tlc.run('MCChoice', cfg(invariants or MODEL_INVARIANTS, steps=run['consts'].get('Steps', 1)),
+                        extra_modules={'MCChoice': module(run)}, workers=run['workers'], timeout=2400, heap='3g')
             res[run['name']] = r
             if r.error is None or 'Error:' in (r.error or ''):
                 break
@@ -189,8 +213,8 @@ def run_models(chk, tier: str, kinds=None, invariants=None) -> dict:
 
 
 def run_mutant(run: dict, mutation: str, invariants) -> tlc.TlcResult:
-    return tlc.run('MCChoice', cfg(invariants, mutation=mutation, emit=False), extra_modules={'MCChoice': module(run)},
-                   workers=2, timeout=900, heap='2g')
+    return tlc.run('MCChoice', cfg(invariants, mutation=mutation, emit=False, steps=run['consts'].get('Steps', 1)),
+                   extra_modules={'MCChoice': module(run)}, workers=2, timeout=900, heap='2g')
 
 
 # ------------------------------------------------------------------------------------ values of the specification
@@ -287,46 +311,65 @@ def nl_members(r):
     return out
 
 
-def nl_nests(r, syntax: str, param=float):
+def lib_names(naming) -> list:
+    """Names handed to the two nest objects (None = no name given), by nest of the specification."""
+    pair = NAMINGS[naming] if isinstance(naming, str) else naming
+    return [x or None for x in pair]
+
+
+def nl_nests(r, syntax: str, param=float, naming=BASE_NAMING):
     from biogeme.nests import NestsForNestedLogit, OneNestForNestedLogit
 
-    mem = nl_members(r)
+    names = lib_names(naming)
+    mem = [(m, fr(r['mus'][m]), [r['labels'][i] for i in range(len(r['labels'])) if fr(r['alpha'][i][m]) != 0]) for m in (0, 1)]
+    mem = [x for x in mem if x[2]]
     if syntax == 'tuple':
-        return tuple((param(mu), list(alts)) for mu, alts in mem)
+        return tuple((param(mu), list(alts)) for m, mu, alts in mem)
     return NestsForNestedLogit(
         choice_set=list(r['labels']),
-        tuple_of_nests=tuple(OneNestForNestedLogit(nest_param=param(mu), list_of_alternatives=list(alts), name=f'n{k}')
-                             for k, (mu, alts) in enumerate(mem)))
+        tuple_of_nests=tuple(OneNestForNestedLogit(nest_param=param(mu), list_of_alternatives=list(alts), name=names[m])
+                             for m, mu, alts in mem))
 
 
-def cnl_nests(r, syntax: str, zeros: bool = False, param=float):
+def cnl_nests(r, syntax: str, zeros: bool = False, param=float, naming=BASE_NAMING):
     """zeros: alternatives of some nest are listed in every nest, with alpha = 0.0 where they do not belong
     (the way the examples of the documentation write it); otherwise they are left out."""
     from biogeme.nests import NestsForCrossNestedLogit, OneNestForCrossNestedLogit
 
+    names = lib_names(naming)
     labels = r['labels']
     nested = [i for i in range(len(labels)) if any(fr(x) != 0 for x in r['alpha'][i])]
     spec = []
     for m in (0, 1):
         al = {labels[i]: float(fr(r['alpha'][i][m])) for i in nested if zeros or fr(r['alpha'][i][m]) != 0}
         if any(v != 0 for v in al.values()):
-            spec.append((fr(r['mus'][m]), al))
+            spec.append((m, fr(r['mus'][m]), al))
     if syntax == 'tuple':
-        return tuple((param(mu), dict(al)) for mu, al in spec)
+        return tuple((param(mu), dict(al)) for m, mu, al in spec)
     return NestsForCrossNestedLogit(
         choice_set=list(labels),
-        tuple_of_nests=tuple(OneNestForCrossNestedLogit(nest_param=param(mu), dict_of_alpha=dict(al), name=f'n{k}')
-                             for k, (mu, al) in enumerate(spec)))
+        tuple_of_nests=tuple(OneNestForCrossNestedLogit(nest_param=param(mu), dict_of_alpha=dict(al), name=names[m])
+                             for m, mu, al in spec))
 
 
-def variants(r, V, av, what: str = 'c05', tuple_param=float, scale=float) -> list:
+def variants(r, V, av, what: str = 'c05', tuple_param=float, scale=float, naming=BASE_NAMING, cache=None) -> list:
     """(name, family, is_log, builder(choice) -> expression).  `family` pairs a probability function with
-    its logarithm; within one structure all variants of a kind must give the same probabilities."""
+    its logarithm; within one structure all variants of a kind must give the same probabilities.
+    The builders read V and av when they are CALLED (a dictionary modified in the meantime gives another model).
+    `naming`: names given to the nest objects.  `cache`: a dictionary keeping the nests of each way of writing
+    them, so that every model function -- and every later construction -- gets the SAME nests object."""
     import biogeme.models as M
     from biogeme.expressions import Beta, Numeric, log
 
     kind = r['kind']
     out = []
+
+    def kept(key, make):
+        if cache is None:
+            return make()
+        if key not in cache:
+            cache[key] = make()
+        return cache[key]
     if kind == 'logit':
         out.append(('logit', 'logit', False, lambda ch: M.logit(V, av, ch)))
         out.append(('loglogit', 'logit', True, lambda ch: M.loglogit(V, av, ch)))
@@ -346,10 +389,11 @@ def variants(r, V, av, what: str = 'c05', tuple_param=float, scale=float) -> lis
         if what == 'c06':
             styles = [('objects', 'objects', float, None), ('tuple', 'tuple', tuple_param, None)]
         for sname, syn, param, sel in styles:
-            def mk(fn, syn=syn, param=param, scaled=False):
+            def mk(fn, syn=syn, param=param, scaled=False, sname=sname):
+                nests = lambda: kept((sname, naming), lambda: nl_nests(r, syn, param, naming))  # noqa
                 if scaled:
-                    return lambda ch: fn(V, av, nl_nests(r, syn, param), ch, mu)
-                return lambda ch: fn(V, av, nl_nests(r, syn, param), ch)
+                    return lambda ch: fn(V, av, nests(), ch, mu)
+                return lambda ch: fn(V, av, nests(), ch)
             cand = []
             if mu1:
                 cand.append((f'nested[{sname}]', f'nested[{sname}]', False, mk(M.nested)))
@@ -366,10 +410,11 @@ def variants(r, V, av, what: str = 'c05', tuple_param=float, scale=float) -> lis
         if what == 'c06':
             styles = [('objects', 'objects', False, None), ('objects+zeros', 'objects', True, None), ('tuple', 'tuple', False, None)]
         for sname, syn, zeros, sel in styles:
-            def mk(fn, syn=syn, zeros=zeros, scaled=False):
+            def mk(fn, syn=syn, zeros=zeros, scaled=False, sname=sname):
+                nests = lambda: kept((sname, naming), lambda: cnl_nests(r, syn, zeros, naming=naming))  # noqa
                 if scaled:
-                    return lambda ch: fn(V, av, cnl_nests(r, syn, zeros), ch, mu)
-                return lambda ch: fn(V, av, cnl_nests(r, syn, zeros), ch)
+                    return lambda ch: fn(V, av, nests(), ch, mu)
+                return lambda ch: fn(V, av, nests(), ch)
             cand = []
             if mu1:
                 cand.append((f'cnl[{sname}]', f'cnl[{sname}]', False, mk(M.cnl)))
@@ -458,13 +503,78 @@ def _obs_database(group, shifts=(), name='c05'):
     return _db(cols, name)
 
 
-def c05_group(group, corrupt=None, only=None) -> dict:
+# The replays of the other namings are spread over the steps of a history (a session on the SAME objects):
+#   step 0  utilities a_k, availabilities v_k            every function, plain naming (with the constants c a)
+#   step 1  the utility dictionary modified in place     -> the arguments of the partner case (a', v)
+#   step 2  the availability dictionary modified in place -> the arguments of the partner case (a', v')
+# (step, naming) evaluated for each model function written with nest objects.  At every step the model is BUILT
+# for every naming, so that each nests object has seen the earlier arguments before it is evaluated.
+PLANS = {
+    'quick': dict(prob=[(1, 'unnamed'), (2, 'same'), (2, 'clash')], log=[(1, 'same'), (2, 'unnamed'), (1, 'clash')], log_pick=1,
+                  again=[(2, 'distinct')]),
+    'thorough': dict(prob=[(1, 'unnamed'), (1, 'clash'), (2, 'same'), (2, 'clash'), (2, 'unnamed')],
+                     log=[(1, 'same'), (2, 'unnamed'), (2, 'clash')], log_pick=3, again=[(1, 'distinct'), (2, 'distinct')]),
+}
+SESSION_STYLES = ('objects', 'objects+zeros')
+
+
+def _crc(x) -> int:
+    import zlib
+
+    return zlib.crc32(repr(x).encode())
+
+
+def _partners(group):
+    """Cyclic successors inside one structure: next utility vector, next availability pattern.
+    -> (avecs, pats, index of (a, av)), in the order of the emission."""
+    avecs, pats, idx = [], [], {}
+    for k, r in enumerate(group):
+        a, v = tuple(r['a']), tuple(r['av'])
+        if a not in avecs:
+            avecs.append(a)
+        if v not in pats:
+            pats.append(v)
+        idx[(a, v)] = k
+    return avecs, pats, idx
+
+
+def _session_database(group, name='c05s'):
+    """Rows (observation, chosen alternative); a_/v_: the case itself, b_: the next utility vector of the
+    structure, w_: the next availability pattern.  -> database, arguments of every row at steps 0, 1, 2."""
+    labels = group[0]['labels']
+    avecs, pats, idx = _partners(group)
+    nxt_a = {a: avecs[(i + 1) % len(avecs)] for i, a in enumerate(avecs)}
+    nxt_v = {v: pats[(i + 1) % len(pats)] for i, v in enumerate(pats)}
+    cols = {f'{c}_{lab}': [] for c in 'avbw' for lab in labels}
+    cols['choice'] = []
+    args = {0: [], 1: [], 2: []}
+    for r in group:
+        a, v = tuple(r['a']), tuple(r['av'])
+        b, w = nxt_a[a], nxt_v[v]
+        args[0].append(idx.get((a, v)))
+        args[1].append(idx.get((b, v)))
+        args[2].append(idx.get((b, w)))
+        for ch in labels:
+            for i, lab in enumerate(labels):
+                cols[f'a_{lab}'].append(a[i])
+                cols[f'v_{lab}'].append(v[i])
+                cols[f'b_{lab}'].append(b[i])
+                cols[f'w_{lab}'].append(w[i])
+            cols['choice'].append(ch)
+    return _db(cols, name), args
+
+
+def c05_group(group, corrupt=None, only=None, plan='quick') -> dict:
     """All observations of one structure through a database (the chosen alternative is a column, so that
     one evaluation gives the probability of every alternative of every observation): values, unit
     interval, sum, zero when unavailable, invariance under a -> c a, log* = ln(*), all-available cases
-    also with av = None."""
+    also with av = None.
+    Then the history on the same objects (one utility dictionary, one availability dictionary, one nests
+    object per naming): the dictionaries are modified in place, the models are built again and evaluated --
+    under the other namings of the nest objects --; expected: the specification's value of the CURRENT arguments."""
     import numpy as np
-    from biogeme.expressions import Variable, log
+    from biogeme.exceptions import BiogemeError
+    from biogeme.expressions import Numeric, Variable, log
 
     col = Collector()
     r0 = group[0]
@@ -473,6 +583,7 @@ def c05_group(group, corrupt=None, only=None) -> dict:
     shifts = SHIFTS if kind in ('logit', 'nl', 'cnl') else ()
     nb = len(group)
     db = _obs_database(group, shifts)
+    # ONE dictionary of utilities and ONE dictionary of availabilities for everything that follows
     V = {lab: log(Variable(f'a_{lab}')) for lab in labels}
     # availabilities are keyed by alternative: the dictionary is written in ANOTHER key order than the utilities
     av = {lab: Variable(f'v_{lab}') for lab in reversed(labels)}
@@ -481,22 +592,24 @@ def c05_group(group, corrupt=None, only=None) -> dict:
     if corrupt is not None:
         want = [corrupt(w) for w in want]
     full = [k for k, r in enumerate(group) if all(r['av'])]
+    cache: dict = {}     # way of writing the nests x naming -> THE nests object
 
-    def run(vs, tag=''):
+    def run(vs, tag='', database=db, shape=None):
         out = {}
         for vname, fam, is_log, build in vs:
             if only is not None and base_name(vname) not in only:
                 continue
             try:
-                out[vname] = _eval(build(choice), db).reshape(1 + len(shifts), nb, J)   # [constant, observation, alternative]
+                out[vname] = _eval(build(choice), database).reshape(shape or (1 + len(shifts), nb, J))   # [constant, observation, alternative]
             except Exception as e:  # noqa  (the process is abandoned: the engine keeps a sticky error state)
                 raise RuntimeError(f'{vname}{tag} on {describe(r0)}: {type(e).__name__}: {e}')
             col.evals += 1
         return out
 
-    vlist = variants(r0, V, av)
+    vlist = variants(r0, V, av, cache=cache)
     got = run(vlist)
-    got_none = run([v for v in variants(r0, V, None) if '[' not in v[0] or v[0].endswith('[objects]') or v[0].endswith('[objects+zeros]')],
+    got_none = run([v for v in variants(r0, V, None, naming='unnamed', cache=cache)
+                    if '[' not in v[0] or v[0].endswith('[objects]') or v[0].endswith('[objects+zeros]')],
                    ' (availability None)') if full else {}
     is_log_of = {v[0]: v[2] for v in vlist}
     prob_of: dict = {}   # base probability function -> one evaluated variant of it
@@ -555,8 +668,112 @@ def c05_group(group, corrupt=None, only=None) -> dict:
                 x = arr[0, k, i]
                 ok = _logclose(x, want[k][i], tol) if is_log_of[vname] else close(x, want[k][i], rel=tol)
                 if not ok:
-                    col.bad(f'{kind}:{fn}:value-availability-None', r, facts_of(r, fn, 'value-none', variant=vname),
+                    col.bad(f'{kind}:{fn}:value-availability-None', r, facts_of(r, fn, 'value-none', variant=vname, naming='unnamed'),
                             alternative=labels[i], got=float(x), want=want[k][i])
+
+    # ---------------------------------------------------------------- history on the same objects, other namings
+    hist = dict(evaluations=0, rows=0, rows_with_other_arguments=0, refused={}, namings={})
+    if kind in ('nl', 'cnl', 'mev') and (only is None):
+        pl = PLANS[plan]
+        spec_namings = [NAMING_OF[tuple(x)] for x in r0.get('namings', [])] if kind != 'mev' else [BASE_NAMING]
+        if kind != 'mev' and set(spec_namings) != set(NAMINGS):
+            raise tlc.MachineryError(f'namings of the specification {r0.get("namings")} are not the ones of the driver')
+        sdb, args = _session_database(group)
+        want_s = want
+        sess = [v for v in vlist if kind == 'mev' or any(v[0].endswith(f'[{st}]') for st in SESSION_STYLES)]
+        builders = {BASE_NAMING: {v[0]: v for v in sess}}
+        for nm in spec_namings:
+            if nm != BASE_NAMING:
+                builders[nm] = {v[0]: v for v in variants(r0, V, av, naming=nm, cache=cache) if v[0] in builders[BASE_NAMING]}
+        refused: dict = {}
+
+        def construct(nm, vname):
+            """The model of the current content of V and av, with the nests object of the naming."""
+            if nm in refused:
+                return None
+            try:
+                return builders[nm][vname][3](choice)
+            except BiogemeError as e:   # the library may refuse a naming -- with its own error type
+                refused[nm] = str(e)[:200]
+                return None
+            except Exception as e:  # noqa
+                raise RuntimeError(f'{vname} with nests named {NAMINGS[nm]} on {describe(r0)}: {type(e).__name__}: {e}')
+
+        def evaluate(e, what_):
+            try:
+                out = _eval(e, sdb).reshape(nb, J)
+            except Exception as ex:  # noqa
+                raise RuntimeError(f'{what_} on {describe(r0)}: {type(ex).__name__}: {ex}')
+            col.evals += 1
+            hist['evaluations'] += 1
+            return out
+
+        def fresh(vname, nm, step):
+            """The same arguments written from scratch: new dictionaries, a new nests object (to tell a naming that
+            matters from a construction that remembers)."""
+            Vf = {lab: log(Variable(f'{"a" if step == 0 else "b"}_{lab}')) for lab in labels}
+            avf = {lab: Variable(f'{"w" if step == 2 else "v"}_{lab}') for lab in reversed(labels)}
+            b = {v[0]: v for v in variants(r0, Vf, avf, naming=nm)}[vname]
+            return evaluate(b[3](choice), f'{vname} (fresh objects, nests named {NAMINGS[nm]})')
+
+        def todo(vname, is_log):
+            if kind == 'mev':
+                return [(1, BASE_NAMING), (2, BASE_NAMING)]
+            if not is_log:
+                first = next(v[0] for v in sess if not v[2])
+                return pl['prob'] + (pl['again'] if vname == first else [])
+            k0 = _crc((struct_key(r0), vname))
+            return [pl['log'][(k0 + j) % len(pl['log'])] for j in range(pl['log_pick'])]
+
+        plan_of = {v[0]: todo(v[0], v[2]) for v in sess}
+        for step in (0, 1, 2):
+            if step == 1:    # the SAME dictionary of utilities gets other expressions
+                for lab in labels:
+                    V[lab] = log(Variable(f'b_{lab}'))
+            if step == 2:    # the SAME dictionary of availabilities gets other expressions
+                for lab in labels:
+                    av[lab] = Variable(f'w_{lab}')
+            for vname, fam, is_log, _ in sess:
+                for nm in builders:
+                    if step == 0 and nm == BASE_NAMING:
+                        continue    # built and evaluated above
+                    e = construct(nm, vname)
+                    if e is None or (step, nm) not in plan_of[vname]:
+                        continue
+                    fn = base_name(vname)
+                    arr = evaluate(e, f'{vname} at step {step}, nests named {NAMINGS[nm]}')
+                    hist['namings'][nm] = hist['namings'].get(nm, 0) + 1
+                    wrong = []
+                    for k, r in enumerate(group):
+                        j = args[step][k]
+                        if j is None:
+                            continue
+                        hist['rows'] += 1
+                        hist['rows_with_other_arguments'] += int(j != k)
+                        rj = group[j]
+                        tol = TOL_EXACT if rj['exact'] else TOL_TERM
+                        col.n += J
+                        for i in range(J):
+                            x, w = arr[k, i], want_s[j][i]
+                            ok = (_logclose(x, w, tol) if is_log else close(x, w, rel=tol)) and (rj['av'][i] or x == (-math.inf if is_log else 0.0))
+                            if not ok:
+                                wrong.append((k, j, i, float(x), w))
+                    if not wrong:
+                        continue
+                    # a naming that matters, or a construction that remembers?  the same arguments from new objects decide
+                    fr_arr = fresh(vname, nm, step)
+                    for k, j, i, x, w in wrong[:5]:
+                        same_fresh = fr_arr[k, i] == x or close(fr_arr[k, i], x, rel=TOL_SAME)
+                        clause = 'naming' if same_fresh and nm != BASE_NAMING else ('value' if same_fresh else 'history')
+                        col.bad(f'{kind}:{fn}:value-{"under-naming" if clause == "naming" else "after-modification" if clause == "history" else "session"}',
+                                group[j], facts_of(group[j], fn, clause, variant=vname, naming=nm, step=step),
+                                alternative=labels[i], got=x, **{'want_ln_of' if is_log else 'want': w},
+                                nests_named=NAMINGS[nm], step=step, same_arguments_from_new_objects=float(fr_arr[k, i]),
+                                history=[dict(step=0, a=group[k]['a'], av=group[k]['av'])]
+                                + ([dict(step=1, modified='utilities', a=group[args[1][k]]['a'] if args[1][k] is not None else None)] if step >= 1 else [])
+                                + ([dict(step=2, modified='availabilities', av=group[j]['av'])] if step >= 2 else []))
+                    col.per_key[f'{kind}:{fn}:session-mismatches'] = col.per_key.get(f'{kind}:{fn}:session-mismatches', 0) + len(wrong)
+        hist['refused'] = refused
     sample = None
     if got:
         vname = next(iter(got))
@@ -566,7 +783,105 @@ def c05_group(group, corrupt=None, only=None) -> dict:
                                 for i, t in enumerate(group[k]['p'])],
                       observed=[float(x) for x in got[vname][0, k]])
     oracle = [(describe(r), b) for r in group for b in oracle_check(r)]
-    return col.result(cases=len(group), sample=sample, oracle=oracle[:3], inexact=sum(1 for r in group if not r['exact']))
+    return col.result(cases=len(group), sample=sample, oracle=oracle[:3], inexact=sum(1 for r in group if not r['exact']), history=hist)
+
+
+def session_items(recs) -> list:
+    """The two-step behaviours of TLC (Steps = 2), by structure: {'first': one-step cases, 'steps': two-step cases}."""
+    by: dict = {}
+    for r in recs:
+        d = by.setdefault(struct_key(r), dict(first=[], steps=[]))
+        d['steps' if 'first' in r else 'first'].append(r)
+    return [d for d in by.values() if d['steps']]
+
+
+def session_group(item, only_kind=None) -> dict:
+    """Two-step behaviours of one structure, as TLC printed them: Build(first); modify ONE dictionary in place
+    (one entry / all entries of the utilities, one entry / all entries of the availabilities); Build again with
+    the same dictionaries and the same nests object.  Each kind of modification is its own session (own
+    objects); rows = behaviours x chosen alternative.  Expected after the first construction: the one-step
+    case of the same arguments; after the second: the `p` of the two-step behaviour."""
+    from biogeme.expressions import Variable, log
+
+    col = Collector()
+    steps = item['steps']
+    r0 = steps[0]
+    kind, labels = r0['kind'], r0['labels']
+    J = len(labels)
+    first_p = {(tuple(r['a']), tuple(r['av'])): r for r in item['first']}
+    sessions: dict = {}
+    for r in steps:
+        a1, v1 = r['first']['a'], r['first']['av']
+        du = [i for i in range(J) if a1[i] != r['a'][i]]
+        dv = [i for i in range(J) if v1[i] != r['av'][i]]
+        if bool(du) == bool(dv):
+            raise tlc.MachineryError(f'two-step behaviour that modifies both dictionaries or none: {r}')
+        key = ('utility', du[0]) if len(du) == 1 else ('utilities', -1) if du else ('availability', dv[0]) if len(dv) == 1 else ('availabilities', -1)
+        sessions.setdefault(key, []).append(r)
+    namings = sorted(NAMINGS) if kind != 'mev' else [BASE_NAMING]
+    stat = dict(sessions=0, behaviours=0, by_modification={})
+    for sn, ((what_, i), rows) in enumerate(sorted(sessions.items())):
+        nm = namings[(sn + _crc(struct_key(r0))) % len(namings)]
+        cols = {f'{c}_{lab}': [] for c in 'avbw' for lab in labels}
+        cols['choice'] = []
+        for r in rows:
+            for ch in labels:
+                for j, lab in enumerate(labels):
+                    cols[f'a_{lab}'].append(r['first']['a'][j])
+                    cols[f'v_{lab}'].append(r['first']['av'][j])
+                    cols[f'b_{lab}'].append(r['a'][j])
+                    cols[f'w_{lab}'].append(r['av'][j])
+                cols['choice'].append(ch)
+        db = _db(cols, 'c05t')
+        V = {lab: log(Variable(f'a_{lab}')) for lab in labels}
+        av = {lab: Variable(f'v_{lab}') for lab in reversed(labels)}
+        choice = Variable('choice')
+        cache: dict = {}
+        mu1 = kind != 'mev' and fr(r0['mu']) == 1
+        sess = [v for v in variants(r0, V, av, what='c06', naming=nm, cache=cache)
+                if kind == 'mev' or (v[0].endswith('[objects]') and not (mu1 and base_name(v[0]) in ('lognested_mev_mu', 'logcnlmu')))]
+        stat['sessions'] += 1
+        stat['behaviours'] += len(rows)
+        stat['by_modification'][what_] = stat['by_modification'].get(what_, 0) + len(rows)
+        for step in (0, 1):
+            if step == 1:
+                if what_ == 'utility':
+                    V[labels[i]] = log(Variable(f'b_{labels[i]}'))
+                elif what_ == 'utilities':
+                    for lab in labels:
+                        V[lab] = log(Variable(f'b_{lab}'))
+                elif what_ == 'availability':
+                    av[labels[i]] = Variable(f'w_{labels[i]}')
+                else:
+                    for lab in labels:
+                        av[lab] = Variable(f'w_{lab}')
+            for vname, fam, is_log, build in sess:
+                fn = base_name(vname)
+                try:
+                    arr = _eval(build(choice), db).reshape(len(rows), J)
+                except Exception as e:  # noqa
+                    raise RuntimeError(f'{vname}, step {step} of the session "{what_}" on {describe(r0)}: {type(e).__name__}: {e}')
+                col.evals += 1
+                for k, r in enumerate(rows):
+                    exp_r = r if step == 1 else first_p.get((tuple(r['first']['a']), tuple(r['first']['av'])))
+                    if exp_r is None:
+                        raise tlc.MachineryError(f'no one-step case for the first arguments of {r}')
+                    w = vals(exp_r['p'], exp_r.get('refs'))
+                    tol = TOL_EXACT if exp_r['exact'] else TOL_TERM
+                    col.n += J
+                    for j in range(J):
+                        x = arr[k, j]
+                        ok = (_logclose(x, w[j], tol) if is_log else close(x, w[j], rel=tol)) and (exp_r['av'][j] or x == (-math.inf if is_log else 0.0))
+                        if not ok:
+                            col.bad(f'{kind}:{fn}:two-step:{"first" if step == 0 else "second"}-construction', exp_r,
+                                    facts_of(exp_r, fn, 'two-step', variant=vname, naming=nm, step=step, modification=what_),
+                                    alternative=labels[j], got=float(x), **{'want_ln_of' if is_log else 'want': w[j]},
+                                    first=r['first'], modification=what_ if i < 0 else f'{what_} of alternative {labels[i]}',
+                                    nests_named=NAMINGS[nm])
+    k = len(steps) // 2
+    sample = dict(two_step_behaviour=dict(first=steps[k]['first'], second=describe(steps[k])),
+                  expected_after_second_construction=[terms.show(expand(t, steps[k].get('refs'))) for t in steps[k]['p']])
+    return col.result(cases=len(steps), sample=sample, inexact=sum(1 for r in steps if not r['exact']), sessions=stat)
 
 
 def c05_numeric(r) -> dict:
@@ -666,13 +981,17 @@ def buggy_generating(util, availability, nests):
     return bioMultSum(terms_)
 
 
-def c06_group(group, generating=None, corrupt_dg=None, tuple_param=float, nl_of=None, parts=('reductions', 'generating')) -> dict:
+def c06_group(group, generating=None, corrupt_dg=None, tuple_param=float, nl_of=None, parts=('reductions', 'generating'),
+              plan='quick', gen_naming=None) -> dict:
     """One structure of a nested / cross-nested logit:
     reductions (code against code, and against the specification's reduced model), scale one, tuple
-    syntax = nest objects; for the nested logit the generating function, its gradient (engine) and the
-    published terms ln dG/dy_i."""
+    syntax = nest objects -- under every naming of the nest objects (quick: one of the other namings per
+    function and structure, in rotation; thorough: all of them) --; for the nested logit the generating
+    function, its gradient (engine) and the published terms ln dG/dy_i (nest objects named by one of the
+    namings, in rotation over the structures; thorough: a second one as well)."""
     import numpy as np
     import biogeme.models as M
+    from biogeme.exceptions import BiogemeError
     from biogeme.expressions import Beta, Numeric, Variable, log
 
     col = Collector()
@@ -681,6 +1000,13 @@ def c06_group(group, generating=None, corrupt_dg=None, tuple_param=float, nl_of=
     J = len(labels)
     mu = float(fr(r0['mu']))
     sample = None
+    rot = _crc(struct_key(r0))
+    spec_namings = [NAMING_OF[tuple(x)] for x in r0.get('namings', [])]
+    if set(spec_namings) != set(NAMINGS):
+        raise tlc.MachineryError(f'namings of the specification {r0.get("namings")} are not the ones of the driver')
+    all_namings = sorted(NAMINGS)
+    others = [nm for nm in all_namings if nm != BASE_NAMING]
+    nstat = dict(evaluations={}, refused={}, generating={})
 
     def ev_all(build, db):
         """-> [alternative, observation]"""
@@ -691,7 +1017,7 @@ def c06_group(group, generating=None, corrupt_dg=None, tuple_param=float, nl_of=
         col.evals += 1
         return out
 
-    def same(key, clause, fa, a, fb, b, tol_of):
+    def same(key, clause, fa, a, fb, b, tol_of, **more):
         """a, b: [alternative, row]"""
         for k, r in enumerate(group):
             col.n += J
@@ -700,13 +1026,16 @@ def c06_group(group, generating=None, corrupt_dg=None, tuple_param=float, nl_of=
                 x, y = a[i, k], b[i, k]
                 ok = (x == y) or close(x, y, rel=tol)
                 if not ok:
-                    col.bad(f'{kind}:{key}', r, facts_of(r, fa, clause, other=fb), alternative=labels[i], **{fa: float(x), fb: float(y)})
+                    col.bad(f'{kind}:{key}', r, facts_of(r, fa, clause, other=fb, **more), alternative=labels[i], **{fa: float(x), fb: float(y)},
+                            **({'nests_named': NAMINGS[more['naming']]} if 'naming' in more else {}))
 
     if 'reductions' in parts:
         db = _obs_database(group, name='c06')
         V = {lab: log(Variable(f'a_{lab}')) for lab in labels}
         av = {lab: Variable(f'v_{lab}') for lab in reversed(labels)}
-        got = {vname: ev_all(build, db) for vname, fam, is_log, build in variants(r0, V, av, what='c06', tuple_param=tuple_param)}
+        cache: dict = {}   # one nests object per way of writing and naming, for all the model functions
+        got = {vname: ev_all(build, db)
+               for vname, fam, is_log, build in variants(r0, V, av, what='c06', tuple_param=tuple_param, cache=cache)}
         tol_term = lambda r: TOL_EXACT if r['exact'] else TOL_TERM  # noqa
         tol_same = lambda r: TOL_SAME  # noqa
         names = sorted({base_name(v) for v in got})
@@ -716,6 +1045,27 @@ def c06_group(group, generating=None, corrupt_dg=None, tuple_param=float, nl_of=
                 if f'{fn}[{other}]' in got:
                     same(f'{fn}:{other}-vs-objects', 'syntax', f'{fn}[objects]', got[f'{fn}[objects]'], f'{fn}[{other}]', got[f'{fn}[{other}]'],
                          tol_same)
+        # ... whatever the names of the nest objects (the legacy tuples carry no names)
+        for nm in others:
+            for vname, fam, is_log, build in variants(r0, V, av, what='c06', tuple_param=tuple_param, naming=nm, cache=cache):
+                fn = base_name(vname)
+                if not vname.endswith('[objects]'):
+                    continue
+                if plan == 'quick' and others[(rot + names.index(fn)) % len(others)] != nm:
+                    continue
+                if nm in nstat['refused']:
+                    continue
+                try:
+                    e = build(Variable('choice'))
+                except BiogemeError as ex:    # a naming the library refuses, with its own error type
+                    nstat['refused'][nm] = str(ex)[:200]
+                    continue
+                except Exception as ex:  # noqa
+                    raise RuntimeError(f'{vname} with nests named {NAMINGS[nm]} on {describe(r0)}: {type(ex).__name__}: {ex}')
+                named = ev_all(lambda ch: e, db)
+                nstat['evaluations'][nm] = nstat['evaluations'].get(nm, 0) + 1
+                same(f'{fn}:tuple-vs-named-objects', 'syntax-naming', f'{fn}[objects]', named, f'{fn}[tuple]', got[f'{fn}[tuple]'], tol_same, naming=nm)
+                same(f'{fn}:named-objects-vs-objects', 'naming', f'{fn}[objects|{nm}]', named, f'{fn}[objects]', got[f'{fn}[objects]'], tol_same, naming=nm)
         # explicit scale one = no scale
         if mu == 1.0:
             for plain, scaled in (('nested', 'nested_mev_mu'), ('lognested', 'lognested_mev_mu'), ('cnl', 'cnlmu'), ('logcnl', 'logcnlmu')):
@@ -731,7 +1081,8 @@ def c06_group(group, generating=None, corrupt_dg=None, tuple_param=float, nl_of=
             same('lognested:all-nest-parameters-one', 'reduce-logit', 'lognested', got['lognested[objects]'], 'loglogit', llg, tol_term)
             same('nested_mev_mu:all-nest-parameters-one', 'reduce-logit', 'nested_mev_mu', got['nested_mev_mu[objects]'], 'logit', lg, tol_term)
         if red == 'nl':
-            nests = (nl_of or (lambda r: nl_nests(r, 'objects')))(r0)
+            # (the nests of the simpler model: named by one of the namings, in rotation)
+            nests = (nl_of or (lambda r: nl_nests(r, 'objects', naming=all_namings[rot % len(all_namings)])))(r0)
             if mu == 1.0:
                 nv = ev_all(lambda ch: M.nested(V, av, nests, ch), db)
                 same('cnl:one-nest-per-alternative', 'reduce-nl', 'cnl', got['cnl[objects]'], 'nested', nv, tol_term)
@@ -754,6 +1105,35 @@ def c06_group(group, generating=None, corrupt_dg=None, tuple_param=float, nl_of=
         k = next((k for k, r in enumerate(group) if sum(r['av']) >= 2 and len(set(r['a'])) > 1), 0)
         sample = dict(case=describe(group[k]), reduces_to=red,
                       **{v: [float(x) for x in got[v][:, k]] for v in list(got)[:4]})
+        # a second construction from the SAME objects (both dictionaries modified in place, the nests object kept): the two
+        # ways of writing the nests still agree, and both give the specification's value of the new arguments
+        if nl_of is None:
+            sdb, args = _session_database(group, name='c06s')
+            for lab in labels:
+                V[lab] = log(Variable(f'b_{lab}'))
+                av[lab] = Variable(f'w_{lab}')
+            again = {v[0]: v for v in variants(r0, V, av, what='c06', tuple_param=tuple_param, cache=cache)}
+            pick = names if plan != 'quick' else [names[(rot // 3 + j) % len(names)] for j in range(min(2, len(names)))]
+            for fn in pick:
+                is_log = again[f'{fn}[objects]'][2]
+                second = {st: ev_all(again[f'{fn}[{st}]'][3], sdb) for st in (('objects', 'tuple') if plan != 'quick' else ('objects',))}
+                nstat['second_constructions'] = nstat.get('second_constructions', 0) + len(second)
+                if 'tuple' in second:
+                    same(f'{fn}:tuple-vs-objects-second-construction', 'syntax-history', f'{fn}[objects]', second['objects'], f'{fn}[tuple]',
+                         second['tuple'], tol_same)
+                for k, r in enumerate(group):
+                    j = args[2][k]
+                    if j is None:
+                        continue
+                    w = vals(group[j]['p'], group[j].get('refs'))
+                    col.n += J
+                    for i in range(J):
+                        x = second['objects'][i, k]
+                        ok = _logclose(x, w[i], tol_term(group[j])) if is_log else close(x, w[i], rel=tol_term(group[j]))
+                        if not ok:
+                            col.bad(f'{kind}:{fn}:second-construction-value', group[j], facts_of(group[j], fn, 'history'), alternative=labels[i],
+                                    got=float(x), **{'want_ln_of' if is_log else 'want': w[i]},
+                                    first_construction=dict(a=r['a'], av=r['av']))
 
     if 'generating' in parts and kind == 'nl':
         gen = generating or M.get_mev_generating_for_nested
@@ -762,100 +1142,185 @@ def c06_group(group, generating=None, corrupt_dg=None, tuple_param=float, nl_of=
         y = {lab: Beta(f'y_{lab}', 1.0, None, None, 0) for lab in labels}
         Vy = {lab: log(y[lab]) for lab in labels}
         avv = {lab: Variable(f'v_{lab}') for lab in labels}
-        nests = nl_nests(r0, 'objects')
-        mems = nl_members(r0)
-        try:
-            G = gen(Vy, avv, nests)
-            lg1 = M.get_mev_for_nested(Vy, avv, nests)
-            lgm = M.get_mev_for_nested_mu(Vy, avv, nests, mu)
-            # G_mu(y) = G_1[mu_m / mu](y^mu): the published (scale-free) generating function, rescaled
-            from biogeme.nests import NestsForNestedLogit, OneNestForNestedLogit
-            rescaled = NestsForNestedLogit(choice_set=list(labels), tuple_of_nests=tuple(
-                OneNestForNestedLogit(nest_param=float(m / fr(r0['mu'])), list_of_alternatives=list(alts), name=f'n{k}')
-                for k, (m, alts) in enumerate(mems)))
-            Gmu = gen({lab: mu * Vy[lab] for lab in labels}, avv, rescaled)
-            if set(lg1) != set(labels) or set(lgm) != set(labels):
-                col.bad('nl:get_mev_for_nested:keys', r0, facts_of(r0, 'get_mev_for_nested', 'keys'), got=sorted(lg1), want=sorted(labels))
-        except Exception as e:  # noqa
-            raise RuntimeError(f'generating function of {describe(r0)}: {type(e).__name__}: {e}')
-        by_a: dict = {}
-        for r in group:
-            by_a.setdefault(tuple(r['a']), {})[tuple(r['av'])] = r
-        for a, recs in by_a.items():
-            betas = {f'y_{lab}': float(a[i]) for i, lab in enumerate(labels)}
+        # the nest objects are named by one of the namings, in rotation over the structures (thorough: two of them)
+        g0 = (rot // 7) % len(all_namings)
+        gnamings = [gen_naming] if gen_naming else [all_namings[g0]] if plan == 'quick' else [all_namings[g0], all_namings[(g0 + 1 + (rot // 31) % 3) % 4]]
+        for gnm in gnamings:
+            nests = nl_nests(r0, 'objects', naming=gnm)
+            gnames = lib_names(gnm)
+            used = [m for m in (0, 1) if any(fr(r0['alpha'][i][m]) != 0 for i in range(J))]
+            mems = nl_members(r0)
             try:
-                og = G.get_value_and_derivatives(betas=betas, database=dbav, gradient=True, hessian=False, bhhh=False, aggregation=False,
-                                                 prepare_ids=True, named_results=True)
-                ogm = Gmu.get_value_and_derivatives(betas=betas, database=dbav, gradient=True, hessian=False, bhhh=False,
-                                                    aggregation=False, prepare_ids=True, named_results=True)
-                t1 = {lab: _eval(lg1[lab], dbav, betas) for lab in labels}
-                tm = {lab: _eval(lgm[lab], dbav, betas) for lab in labels}
+                G = gen(Vy, avv, nests)
+                lg1 = M.get_mev_for_nested(Vy, avv, nests)
+                lgm = M.get_mev_for_nested_mu(Vy, avv, nests, mu)
+                # G_mu(y) = G_1[mu_m / mu](y^mu): the published (scale-free) generating function, rescaled
+                from biogeme.nests import NestsForNestedLogit, OneNestForNestedLogit
+                rescaled = NestsForNestedLogit(choice_set=list(labels), tuple_of_nests=tuple(
+                    OneNestForNestedLogit(nest_param=float(m / fr(r0['mu'])), list_of_alternatives=list(alts), name=gnames[used[k]])
+                    for k, (m, alts) in enumerate(mems)))
+                Gmu = gen({lab: mu * Vy[lab] for lab in labels}, avv, rescaled)
+                if set(lg1) != set(labels) or set(lgm) != set(labels):
+                    col.bad('nl:get_mev_for_nested:keys', r0, facts_of(r0, 'get_mev_for_nested', 'keys'), got=sorted(lg1), want=sorted(labels))
+            except BiogemeError as e:    # a naming the library refuses, with its own error type
+                if gnm == BASE_NAMING:
+                    raise RuntimeError(f'generating function of {describe(r0)}: {type(e).__name__}: {e}')
+                nstat['refused'][gnm] = str(e)[:200]
+                continue
             except Exception as e:  # noqa
-                raise RuntimeError(f'generating function of {describe(r0)} at y={a}: {type(e).__name__}: {e}')
-            col.evals += 2 + 2 * J
-            for row, pat in enumerate(patterns):
-                r = recs.get(pat)
-                if r is None:
-                    continue
-                tol = TOL_EXACT if all(isinstance(t, list) for t in r['dg']) else TOL_TERM
-                refs = r['refs']
-                want_g = val(r['g'], refs)
-                want_dg = vals(r['dg'], refs)
-                if corrupt_dg is not None:
-                    want_dg = corrupt_dg(want_dg)
-                grad = {nm: float(x) for nm, x in og.gradients[row].items()}
-                grad_m = {nm: float(x) for nm, x in ogm.gradients[row].items()}
-                feats = facts_of(r, 'get_mev_generating_for_nested', 'generating')
-                if mu == 1.0:
-                    col.n += 1
-                    if not close(float(og.functions[row]), want_g, rel=tol):
-                        col.bad('nl:get_mev_generating_for_nested:value', r, dict(feats, clause='G-value'),
-                                got=float(og.functions[row]), want=want_g, G=terms.show(expand(r['g'], refs)))
-                col.n += 1
-                if not close(float(ogm.functions[row]), want_g, rel=tol):
-                    col.bad('nl:get_mev_generating_for_nested:value-rescaled', r, dict(feats, clause='G-value-rescaled'),
-                            got=float(ogm.functions[row]), want=want_g, G=terms.show(expand(r['g'], refs)))
-                for i, lab in enumerate(labels):
-                    if not r['av'][i]:
-                        # G does not depend on an unavailable alternative
-                        col.n += 1
-                        if grad.get(f'y_{lab}', 0.0) != 0.0 and mu == 1.0:
-                            col.bad('nl:get_mev_generating_for_nested:unavailable-derivative', r, dict(feats, clause='dG-unavailable'),
-                                    alternative=lab, dG_dy=grad[f'y_{lab}'])
+                raise RuntimeError(f'generating function of {describe(r0)}, nests named {NAMINGS[gnm]}: {type(e).__name__}: {e}')
+            nstat['generating'][gnm] = nstat['generating'].get(gnm, 0) + 1
+            by_a: dict = {}
+            for r in group:
+                by_a.setdefault(tuple(r['a']), {})[tuple(r['av'])] = r
+            for a, recs in by_a.items():
+                betas = {f'y_{lab}': float(a[i]) for i, lab in enumerate(labels)}
+                try:
+                    og = G.get_value_and_derivatives(betas=betas, database=dbav, gradient=True, hessian=False, bhhh=False, aggregation=False,
+                                                     prepare_ids=True, named_results=True)
+                    ogm = Gmu.get_value_and_derivatives(betas=betas, database=dbav, gradient=True, hessian=False, bhhh=False,
+                                                        aggregation=False, prepare_ids=True, named_results=True)
+                    t1 = {lab: _eval(lg1[lab], dbav, betas) for lab in labels}
+                    tm = {lab: _eval(lgm[lab], dbav, betas) for lab in labels}
+                except Exception as e:  # noqa
+                    raise RuntimeError(f'generating function of {describe(r0)} at y={a}: {type(e).__name__}: {e}')
+                col.evals += 2 + 2 * J
+                for row, pat in enumerate(patterns):
+                    r = recs.get(pat)
+                    if r is None:
                         continue
-                    alone = all(fr(x) == 0 for x in r['alpha'][i])
-                    pos = 'alone' if alone else 'nested'
-                    pub_m = math.exp(float(tm[lab][row]))
-                    col.n += 2
-                    # the published terms against the derivative the specification states ...
-                    if not close(pub_m, want_dg[i], rel=tol):
-                        col.bad('nl:get_mev_for_nested_mu:term-vs-specification', r,
-                                dict(facts_of(r, 'get_mev_for_nested_mu', 'dG-spec'), position=pos), alternative=lab,
-                                exp_of_term=pub_m, dG_dy=want_dg[i], dG_dy_term=terms.show(expand(r['dg'][i], refs)))
-                    # ... and against the derivative of the published generating function (engine gradient)
-                    if not close(pub_m, grad_m.get(f'y_{lab}', 0.0), rel=TOL_TERM):
-                        col.bad('nl:get_mev_for_nested_mu:term-vs-gradient-of-G', r,
-                                dict(facts_of(r, 'get_mev_for_nested_mu', 'dG-gradient'), position=pos), alternative=lab,
-                                exp_of_term=pub_m, gradient_of_published_G=grad_m.get(f'y_{lab}', 0.0), specification=want_dg[i])
+                    tol = TOL_EXACT if all(isinstance(t, list) for t in r['dg']) else TOL_TERM
+                    refs = r['refs']
+                    want_g = val(r['g'], refs)
+                    want_dg = vals(r['dg'], refs)
+                    if corrupt_dg is not None:
+                        want_dg = corrupt_dg(want_dg)
+                    grad = {nm: float(x) for nm, x in og.gradients[row].items()}
+                    grad_m = {nm: float(x) for nm, x in ogm.gradients[row].items()}
+                    feats = facts_of(r, 'get_mev_generating_for_nested', 'generating', naming=gnm)
                     if mu == 1.0:
-                        pub = math.exp(float(t1[lab][row]))
+                        col.n += 1
+                        if not close(float(og.functions[row]), want_g, rel=tol):
+                            col.bad('nl:get_mev_generating_for_nested:value', r, dict(feats, clause='G-value'),
+                                    got=float(og.functions[row]), want=want_g, G=terms.show(expand(r['g'], refs)))
+                    col.n += 1
+                    if not close(float(ogm.functions[row]), want_g, rel=tol):
+                        col.bad('nl:get_mev_generating_for_nested:value-rescaled', r, dict(feats, clause='G-value-rescaled'),
+                                got=float(ogm.functions[row]), want=want_g, G=terms.show(expand(r['g'], refs)))
+                    for i, lab in enumerate(labels):
+                        if not r['av'][i]:
+                            # G does not depend on an unavailable alternative
+                            col.n += 1
+                            if grad.get(f'y_{lab}', 0.0) != 0.0 and mu == 1.0:
+                                col.bad('nl:get_mev_generating_for_nested:unavailable-derivative', r, dict(feats, clause='dG-unavailable'),
+                                        alternative=lab, dG_dy=grad[f'y_{lab}'])
+                            continue
+                        alone = all(fr(x) == 0 for x in r['alpha'][i])
+                        pos = 'alone' if alone else 'nested'
+                        pub_m = math.exp(float(tm[lab][row]))
                         col.n += 2
-                        if not close(pub, want_dg[i], rel=tol):
-                            col.bad('nl:get_mev_for_nested:term-vs-specification', r,
-                                    dict(facts_of(r, 'get_mev_for_nested', 'dG-spec'), position=pos), alternative=lab,
-                                    exp_of_term=pub, dG_dy=want_dg[i], dG_dy_term=terms.show(expand(r['dg'][i], refs)))
-                        if not close(pub, grad.get(f'y_{lab}', 0.0), rel=TOL_TERM):
-                            col.bad('nl:get_mev_for_nested:term-vs-gradient-of-G', r,
-                                    dict(facts_of(r, 'get_mev_for_nested', 'dG-gradient'), position=pos), alternative=lab,
-                                    exp_of_term=pub, gradient_of_published_G=grad.get(f'y_{lab}', 0.0), specification=want_dg[i])
-                if sample is not None and 'G' not in sample and mu == 1.0 and sum(r['av']) >= 2:
-                    sample.update(G=dict(case=describe(r), G_expected=terms.show(expand(r['g'], refs)), G_observed=float(og.functions[row]),
-                                         dG_expected=want_dg, gradient_observed=[grad.get(f'y_{lab}') for lab in labels],
-                                         exp_of_published_terms=[math.exp(float(t1[lab][row])) for lab in labels]))
-    return col.result(cases=len(group), sample=sample, inexact=sum(1 for r in group if not r['exact']))
+                        # the published terms against the derivative the specification states ...
+                        if not close(pub_m, want_dg[i], rel=tol):
+                            col.bad('nl:get_mev_for_nested_mu:term-vs-specification', r,
+                                    dict(facts_of(r, 'get_mev_for_nested_mu', 'dG-spec'), position=pos, naming=gnm), alternative=lab,
+                                    exp_of_term=pub_m, dG_dy=want_dg[i], dG_dy_term=terms.show(expand(r['dg'][i], refs)))
+                        # ... and against the derivative of the published generating function (engine gradient)
+                        if not close(pub_m, grad_m.get(f'y_{lab}', 0.0), rel=TOL_TERM):
+                            col.bad('nl:get_mev_for_nested_mu:term-vs-gradient-of-G', r,
+                                    dict(facts_of(r, 'get_mev_for_nested_mu', 'dG-gradient'), position=pos, naming=gnm), alternative=lab,
+                                    exp_of_term=pub_m, gradient_of_published_G=grad_m.get(f'y_{lab}', 0.0), specification=want_dg[i])
+                        if mu == 1.0:
+                            pub = math.exp(float(t1[lab][row]))
+                            col.n += 2
+                            if not close(pub, want_dg[i], rel=tol):
+                                col.bad('nl:get_mev_for_nested:term-vs-specification', r,
+                                        dict(facts_of(r, 'get_mev_for_nested', 'dG-spec'), position=pos, naming=gnm), alternative=lab,
+                                        exp_of_term=pub, dG_dy=want_dg[i], dG_dy_term=terms.show(expand(r['dg'][i], refs)))
+                            if not close(pub, grad.get(f'y_{lab}', 0.0), rel=TOL_TERM):
+                                col.bad('nl:get_mev_for_nested:term-vs-gradient-of-G', r,
+                                        dict(facts_of(r, 'get_mev_for_nested', 'dG-gradient'), position=pos, naming=gnm), alternative=lab,
+                                        exp_of_term=pub, gradient_of_published_G=grad.get(f'y_{lab}', 0.0), specification=want_dg[i])
+                    if sample is not None and 'G' not in sample and mu == 1.0 and sum(r['av']) >= 2:
+                        sample.update(G=dict(case=describe(r), G_expected=terms.show(expand(r['g'], refs)), G_observed=float(og.functions[row]),
+                                             dG_expected=want_dg, gradient_observed=[grad.get(f'y_{lab}') for lab in labels],
+                                             exp_of_published_terms=[math.exp(float(t1[lab][row])) for lab in labels]))
+    return col.result(cases=len(group), sample=sample, inexact=sum(1 for r in group if not r['exact']), namings=nstat)
+
+
+# ------------------------------------------------------------------------------------ known-wrong libraries (negative controls)
+def patch_names_matter():
+    """Negative control, to be called in a forked child: the nested logit terms are computed from nests keyed
+    by their NAME (a later nest with the name of an earlier one takes its place: both get its parameter)."""
+    import sys
+    from biogeme.nests import NestsForNestedLogit, OneNestForNestedLogit
+
+    mod = sys.modules['biogeme.models.nested']
+
+    def keyed(real):
+        def f(util, availability, nests, *rest):
+            if isinstance(nests, NestsForNestedLogit):
+                by_name = {m.name: m.nest_param for m in nests}
+                nests = NestsForNestedLogit(choice_set=nests.choice_set, tuple_of_nests=tuple(
+                    OneNestForNestedLogit(nest_param=by_name[m.name], list_of_alternatives=m.list_of_alternatives, name=m.name) for m in nests))
+            return real(util, availability, nests, *rest)
+        return f
+
+    for name in ('get_mev_for_nested', 'get_mev_for_nested_mu', 'get_mev_generating_for_nested'):
+        setattr(mod, name, keyed(getattr(mod, name)))
+    import biogeme.models as M
+    for name in ('get_mev_for_nested', 'get_mev_for_nested_mu', 'get_mev_generating_for_nested'):
+        setattr(M, name, getattr(mod, name))
+
+
+def patch_remembering():
+    """Negative control, to be called in a forked child: the cross-nested logit keeps, on the nests object, the
+    utilities and availabilities it saw first with these dictionary OBJECTS and uses them again."""
+    import sys
+
+    mod = sys.modules['biogeme.models.cnl']
+
+    def remembering(real):
+        def f(util, availability, nests, *rest):
+            memo = getattr(nests, '_seen', None) if not isinstance(nests, tuple) else None
+            if not isinstance(nests, tuple):
+                if memo is None or memo[0] is not util or memo[1] is not availability:
+                    memo = (util, availability, dict(util), dict(availability) if availability is not None else None)
+                    nests._seen = memo
+                return real(memo[2], memo[3], nests, *rest)
+            return real(util, availability, nests, *rest)
+        return f
+
+    for name in ('get_mev_for_cross_nested', 'get_mev_for_cross_nested_mu'):
+        setattr(mod, name, remembering(getattr(mod, name)))
+
+
+def c05_group_patched(group, patch: str, **kw):
+    {'names': patch_names_matter, 'remembers': patch_remembering}[patch]()
+    return c05_group(group, **kw)
+
+
+def c06_group_patched(group, patch: str, **kw):
+    {'names': patch_names_matter, 'remembers': patch_remembering}[patch]()
+    return c06_group(group, **kw)
+
+
+def session_group_patched(item, patch: str):
+    {'names': patch_names_matter, 'remembers': patch_remembering}[patch]()
+    return session_group(item)
 
 
 # ------------------------------------------------------------------------------------ reporting
+def _merge(into: dict, d: dict):
+    for k, x in d.items():
+        if isinstance(x, dict):
+            if k == 'refused':   # naming -> message of the library
+                into.setdefault(k, {}).update(x)
+            else:
+                _merge(into.setdefault(k, {}), x)
+        elif isinstance(x, (int, float)):
+            into[k] = into.get(k, 0) + x
+
+
 def report(chk, label: str, items, results, samples: dict | None = None) -> dict:
     """Replay results -> counts / violations of the check.  -> statistics of this batch."""
     stat = dict(items=len(items), cases=0, comparisons=0, engine_evaluations=0, mismatching_comparisons={}, inexact_cases=0)
@@ -864,7 +1329,7 @@ def report(chk, label: str, items, results, samples: dict | None = None) -> dict
         if st == 'ok' and v.get('sample'):
             samples[label] = v['sample']
     for item, (st, v) in zip(items, results):
-        first = item[0] if isinstance(item, list) else item
+        first = item[0] if isinstance(item, list) else item['steps'][0] if 'steps' in item else item
         if st != 'ok':
             chk.violation(f'{label}:replay-{st}', dict(case=describe(first), error=v),
                           match=dict(kind=first['kind'], clause='exception', features=facts_of(first, '', '')['features']
@@ -876,6 +1341,9 @@ def report(chk, label: str, items, results, samples: dict | None = None) -> dict
         stat['comparisons'] += v['n']
         stat['engine_evaluations'] += v['evals']
         stat['inexact_cases'] += v.get('inexact', 0)
+        for part in ('history', 'sessions', 'namings'):   # nested counters of the new parts
+            if v.get(part):
+                _merge(stat.setdefault(part, {}), v[part])
         chk.replayed += v['cases']
         chk.count(None, v['n'])
         for k, c in v['counts'].items():
